@@ -6,7 +6,8 @@ Used by C11 (and C04, C13, C14, C19).  A ledger of the family is
                accounts Beancount's summarisation (OPEN/CLOSE/CLEAR) books to)
   + any subset of ALPHABET, in alphabet order  (the *body*; each member is a named snippet of one or two
                dated directives; the dates never decrease along the alphabet, so every subset, kept in
-               alphabet order, is a date-sorted, valid ledger; two pairs of neighbours share a date on purpose).
+               alphabet order, is a date-sorted, valid ledger; several neighbours share a date on purpose, so
+               that "ledger order" is the loader's order (date, directive kind, line) and not just the date).
 
 ``family(n)`` enumerates **all** ledgers with at most ``n`` body snippets, simplest first (by size, then
 lexicographically by alphabet index): 1 + C(A,1) + ... + C(A,n) ledgers for an alphabet of A snippets.
